@@ -1,8 +1,11 @@
 import Driver.C13
 import Driver.Graph
+import Driver.Core
+import Driver.C18
+import Driver.C14
 open Cspuz Cspuz.Drv
 
-def handlers : List (Sexp → Option Sexp) := [handleC13, handleGraph]
+def handlers : List (Sexp → Option Sexp) := [handleC13, handleGraph, handleCore, handleC18, handleC14]
 
 def handle (s : Sexp) : Sexp :=
   match s with
